@@ -533,5 +533,13 @@ func c26HupDuringScan(round int) *vstat.Failure {
 	if h["v2"] != 3 || h["v1"] != 0 {
 		return vstat.Failf("stale-version-running", "after the edit and the reload request the lines were counted by %v (want v2: 3)", h)
 	}
+	// let the second scan finish before the runtime is shut down: its last act
+	// is to unload the program that came from the (now removed) pipe, and a
+	// shutdown in the middle of a scan is not this check's subject
+	if mapVal(runtime.ProgLoads, fifo) > 0 {
+		for end := time.Now().Add(3 * time.Second); time.Now().Before(end) && mapVal(runtime.ProgUnloads, fifo) == 0; time.Sleep(time.Millisecond) {
+		}
+	}
+	time.Sleep(5 * time.Millisecond)
 	return nil
 }
